@@ -46,6 +46,11 @@ type c27Round struct {
 	Recips   []c27Recip `json:"recips"`
 	Margin   int        `json:"margin"` // fee left in BTM: 0.2 BTM + Margin * 0.05 BTM
 	SignSkip int        `json:"sign_skip"`
+	// Refuse: before the request of this round, a request the wallet must refuse is sent (the client
+	// made a mistake and corrects it): 2 = the same actions plus a spend of an asset the account has
+	// none of, at the end; 3 = the same with that spend in second place; 4 = the same actions plus
+	// a recipient without an amount.  Whatever the refused request reserved must be free again.
+	Refuse int `json:"refuse,omitempty"`
 }
 
 type c27Case struct {
@@ -73,6 +78,9 @@ func c27Gen(t *rapid.T) c27Case {
 	nr := rapid.IntRange(1, 2).Draw(t, "nrounds")
 	for r := 0; r < nr; r++ {
 		rd := c27Round{Margin: rapid.IntRange(0, 6).Draw(t, "margin"), SignSkip: rapid.IntRange(0, 2).Draw(t, "signskip")}
+		if v := rapid.IntRange(0, 5).Draw(t, "refuse"); v >= 2 && v <= 4 {
+			rd.Refuse = v
+		}
 		ns := rapid.IntRange(1, 4).Draw(t, "nspends")
 		for i := 0; i < ns; i++ {
 			rd.Spends = append(rd.Spends, c27Spend{Acct: rapid.IntRange(0, 2).Draw(t, "acct"), Asset: rapid.IntRange(0, 2).Draw(t, "asset"), Frac: rapid.IntRange(1, 1000).Draw(t, "frac")})
@@ -359,6 +367,35 @@ func c27Exec(c c27Case, x *pbt.Ctx) error {
 			return fmt.Sprintf("round %d at height %d; spendable: %s; actions: %s", ri, cur, strings.Join(av, " "), strings.Join(parts, " "))
 		}
 
+		// a request with a mistake first: it must be refused, and must leave nothing behind
+		if rd.Refuse >= 2 && rd.Refuse <= 4 && len(actions) > 0 {
+			nobody := sha256.Sum256([]byte("verif-asset-nobody-has"))
+			var wrong map[string]interface{}
+			if rd.Refuse == 4 {
+				wrong = map[string]interface{}{"type": "control_program", "control_program": "51", "asset_id": btm.String(), "amount": 0}
+			} else {
+				wrong = map[string]interface{}{"type": "spend_account", "account_id": actions[0]["account_id"], "asset_id": hex.EncodeToString(nobody[:]), "amount": 1}
+			}
+			bad := append([]map[string]interface{}{}, actions...)
+			if rd.Refuse == 3 {
+				bad = append(bad[:1:1], append([]map[string]interface{}{wrong}, bad[1:]...)...)
+			} else {
+				bad = append(bad, wrong)
+			}
+			var badActs []txbuilder.Action
+			for _, a := range bad {
+				act, err := e.decodeAction(a)
+				if err != nil {
+					return fmt.Errorf("HARNESS: action of the refused request does not decode: %v", err)
+				}
+				badActs = append(badActs, act)
+			}
+			if _, err := txbuilder.Build(context.Background(), nil, account.MergeSpendAction(badActs), farFuture, 0); err == nil {
+				return fmt.Errorf("HARNESS-SUSPECT: a request with a wrong action (%v) was built\n%s", wrong, describe())
+			}
+			x.Class("refused-request-before-the-round")
+		}
+
 		// build, as POST /build-transaction does
 		var acts []txbuilder.Action
 		for _, a := range actions {
@@ -371,7 +408,11 @@ func c27Exec(c c27Case, x *pbt.Ctx) error {
 		acts = account.MergeSpendAction(acts)
 		tpl, err := txbuilder.Build(context.Background(), nil, acts, farFuture, 0)
 		if err != nil {
-			return fmt.Errorf("Build fails although every spend is within what the account can spend: %v\n%s", describeBuildErr(err), describe())
+			refusedNote := ""
+			if rd.Refuse >= 2 && rd.Refuse <= 4 {
+				refusedNote = fmt.Sprintf(" (a request with the same actions and one wrong action, variant %d, was refused just before)", rd.Refuse)
+			}
+			return fmt.Errorf("Build fails although every spend is within what the account can spend%s: %v\n%s", refusedNote, describeBuildErr(err), describe())
 		}
 		if err := e.signAll(tpl, rd.SignSkip); err != nil {
 			return fmt.Errorf("Sign: %v\n%s", err, describe())
